@@ -611,6 +611,10 @@ func (c *Ctx) outputLookupDominatesAccept() bool {
 	if f == nil {
 		return false
 	}
+	// the function may end in a worker on the same receiver that calls the handler and looks the output up
+	if w, _ := c.tailWorker(f); w != nil {
+		f = w
+	}
 	ei := core.ErrorResultIndex(f.Signature)
 	for _, r := range core.ReturnsOf(f) {
 		if c.M.RetNonNil(r, ei) {
